@@ -5,38 +5,22 @@
 //! `scope_matches` is verified against the BODY of `covers` (non-modular): the
 //! attribute form of the `covers` contract needed for `stub_verified` costs 178-335 s
 //! per block (see c19_covers.rs), the real `covers` 1-3 s. The specification side
-//! uses `spec_covers` of unit C19.covers, which that unit proves equal to `covers`.
-//! This module imports its spec predicates from `verif_c19_covers`, so the two units
-//! are applied together (they are, in every `./check C19` run; for a single-unit
-//! run use `--unit C19.covers,C19.scope`).
+//! uses `spec_covers` (c19_common.rs), which unit C19.covers proves equal to `covers`.
 //!
 //! Specifications are written from the property ("an authority covers a resource
 //! only if every bound list covers it"; "expiry takes effect on the very next
 //! request") and from the documentation of `AuthorityConditions`,
 //! `auth_strength`, `purpose_assurance` and `classification`; the rank tables below
 //! are re-stated from that documentation, not imported from the code.
-use super::verif_c19_covers::{listed, spec_covers, sym_str};
+#[path = "c19_common.rs"]
+mod common;
 use super::*;
+use common::{auth_ctx, conditions, is, listed, spec_covers, sym_list, sym_str};
 use core::mem::ManuallyDrop;
 
 // ---------------------------------------------------------------------------
 // documented orders, restated
 // ---------------------------------------------------------------------------
-
-fn is(s: &str, lit: &str) -> bool {
-    let (a, b) = (s.as_bytes(), lit.as_bytes());
-    if a.len() != b.len() {
-        return false;
-    }
-    let mut i = 0;
-    while i < a.len() {
-        if a[i] != b[i] {
-            return false;
-        }
-        i += 1;
-    }
-    true
-}
 
 /// auth_strength: none < standard < strong; an unrecognized name is the LOWEST rung.
 pub(super) fn spec_strength(s: &str) -> u8 {
@@ -123,47 +107,6 @@ pub(super) fn spec_conditions_hold(c: &AuthorityConditions, a: &AuthContext, now
 // ---------------------------------------------------------------------------
 // builders (structure concrete, payload symbolic)
 // ---------------------------------------------------------------------------
-
-pub(super) fn sym_list(lens: &[usize]) -> Vec<String> {
-    let mut v = Vec::with_capacity(2);
-    let mut i = 0;
-    while i < lens.len() {
-        v.push(sym_str(lens[i]));
-        i += 1;
-    }
-    v
-}
-
-pub(super) fn auth_ctx(strength: &str, assurance: &str, purpose: String) -> ManuallyDrop<AuthContext> {
-    ManuallyDrop::new(AuthContext {
-        principal_id: String::new(),
-        session_id: String::new(),
-        auth_strength: strength.to_string(),
-        auth_method: String::new(),
-        delegation_chain: Vec::new(),
-        purpose,
-        purpose_assurance: assurance.to_string(),
-        risk: String::new(),
-        client: String::new(),
-        break_glass: false,
-    })
-}
-
-pub(super) fn conditions(
-    purpose: Vec<String>,
-    min_assurance: &str,
-    min_strength: &str,
-    valid_from: String,
-    valid_until: String,
-) -> ManuallyDrop<AuthorityConditions> {
-    ManuallyDrop::new(AuthorityConditions {
-        purpose,
-        min_purpose_assurance: min_assurance.to_string(),
-        min_auth_strength: min_strength.to_string(),
-        valid_from,
-        valid_until,
-    })
-}
 
 // ---------------------------------------------------------------------------
 // scope_matches
